@@ -1,0 +1,11 @@
+//go:build verif
+
+package pow
+
+import "github.com/iotaledger/iota.go/consts"
+
+// CheckStateTrits exposes checkStateTrits for differential verification runs (build tag verif only).
+func CheckStateTrits(l, h *[consts.HashTrinarySize]uint, n uint) int { return checkStateTrits(l, h, n) }
+
+// TrailingZeros exposes trailingZeros for differential verification runs (build tag verif only).
+func TrailingZeros(powDigest []byte, nonce uint64) int { return trailingZeros(powDigest, nonce) }
